@@ -26,21 +26,21 @@ def run_dim(ctx, d, basis, rng):
     ctx.case(('gm', d))
     try:
         got = GM.all_gellmann_matrix(d)
-        if got.shape != G.shape or np.abs(got - G).max() > 1e-12:
+        if got.shape != G.shape or core.gt(np.abs(got - G).max(), 1e-12):
             k = int(np.argmax(np.abs(got - G).reshape(len(G), -1).max(axis=1))) if got.shape == G.shape else -1
             bad('all_gellmann_matrix', 'matrices / order differ from the documented basis', dict(index=k))
             return
-        if np.abs(GM.all_gellmann_matrix(d, with_I=False) - G[:-1]).max() > 1e-12:
+        if core.gt(np.abs(GM.all_gellmann_matrix(d, with_I=False) - G[:-1]).max(), 1e-12):
             bad('all_gellmann_matrix', 'with_I=False')
         # single-matrix constructor, documented (i,j) addressing
         pairs = [(i, j) for i in range(d) for j in range(i + 1, d)]
         ref = [GM.gellmann_matrix(i, j, d) for i, j in pairs] + [GM.gellmann_matrix(j, i, d) for i, j in pairs] + [GM.gellmann_matrix(i, i, d) for i in range(1, d)] + [GM.gellmann_matrix(0, 0, d)]
-        if np.abs(np.stack(ref) - G).max() > 1e-12:
+        if core.gt(np.abs(np.stack(ref) - G).max(), 1e-12):
             bad('gellmann_matrix', 'single constructor differs')
         if d <= 3:
             g2 = GM.all_gellmann_matrix(d, tensor_n=2)
             want = np.stack([np.kron(G[a], G[b]) for a in range(d * d) for b in range(d * d)])
-            if g2.shape != want.shape or np.abs(g2 - want).max() > 1e-12:
+            if g2.shape != want.shape or core.gt(np.abs(g2 - want).max(), 1e-12):
                 bad('all_gellmann_matrix', 'tensor_n=2 ordering / Kronecker products')
         # analysis on every matrix unit and synthesis on every unit vector
         units = np.zeros((d * d, d, d), dtype=complex)
@@ -56,33 +56,33 @@ def run_dim(ctx, d, basis, rng):
                 got = back(GM.matrix_to_gellmann_basis(conv(Ain.copy())))
                 want = analysis(Ain)
                 ctx.case(('gm', d, backend, shape))
-                if got.shape != want.shape or np.abs(got - want).max() > TOL:
+                if got.shape != want.shape or core.gt(np.abs(got - want).max(), TOL):
                     bad('matrix_to_gellmann_basis', '%s batch shape %s: coefficients of matrix units' % (backend, shape))
                     break
                 V = np.eye(d * d)
                 Vin = V.reshape(shape + (d * d,)) if shape is not None else V[2 % (d * d)]
                 gotm = back(GM.gellmann_basis_to_matrix(conv(Vin.astype(np.complex128).copy())))
                 wantm = np.einsum('...k,kij->...ij', Vin, G)
-                if gotm.shape != wantm.shape or np.abs(gotm - wantm).max() > TOL:
+                if gotm.shape != wantm.shape or core.gt(np.abs(gotm - wantm).max(), TOL):
                     bad('gellmann_basis_to_matrix', '%s batch shape %s: unit vectors do not give the basis matrices' % (backend, shape))
                     break
             # integer matrices with complex entries, batch (3,2): round trips both ways
             A = np.array([[[[complex(rng.randint(-5, 5), rng.randint(-5, 5)) for _ in range(d)] for _ in range(d)] for _ in range(2)] for _ in range(3)])
             v = back(GM.matrix_to_gellmann_basis(conv(A.copy())))
-            if np.abs(v - analysis(A)).max() > TOL:
+            if core.gt(np.abs(v - analysis(A)).max(), TOL):
                 bad('matrix_to_gellmann_basis', '%s: integer matrices' % backend)
-            if np.abs(back(GM.gellmann_basis_to_matrix(conv(v.copy()))) - A).max() > TOL:
+            if core.gt(np.abs(back(GM.gellmann_basis_to_matrix(conv(v.copy()))) - A).max(), TOL):
                 bad('gellmann_basis_to_matrix', '%s: vector -> matrix does not reconstruct the matrix' % backend)
             w = np.array([[complex(rng.randint(-5, 5), rng.randint(-5, 5)) for _ in range(d * d)] for _ in range(4)])
-            if np.abs(back(GM.matrix_to_gellmann_basis(GM.gellmann_basis_to_matrix(conv(w.copy())))) - w).max() > TOL:
+            if core.gt(np.abs(back(GM.matrix_to_gellmann_basis(GM.gellmann_basis_to_matrix(conv(w.copy())))) - w).max(), TOL):
                 bad('matrix_to_gellmann_basis', '%s: vector -> matrix -> vector is not the identity' % backend)
         # single precision torch
         A32 = torch.tensor(units[: min(6, d * d)], dtype=torch.complex64)
         got32 = GM.matrix_to_gellmann_basis(A32).numpy()
-        if np.abs(got32 - analysis(units[: min(6, d * d)])).max() > TOL32:
+        if core.gt(np.abs(got32 - analysis(units[: min(6, d * d)])).max(), TOL32):
             bad('matrix_to_gellmann_basis', 'torch complex64')
         v32 = torch.tensor(np.eye(d * d)[: min(6, d * d)], dtype=torch.float32)
-        if np.abs(GM.gellmann_basis_to_matrix(v32).numpy() - G[: min(6, d * d)]).max() > TOL32:
+        if core.gt(np.abs(GM.gellmann_basis_to_matrix(v32).numpy() - G[: min(6, d * d)]).max(), TOL32):
             bad('gellmann_basis_to_matrix', 'torch float32')
         # density matrices with rational entries: Bloch vector, norm, distance
         for trial in range(3):
@@ -97,22 +97,22 @@ def run_dim(ctx, d, basis, rng):
             bv = analysis(rho).real[:-1]
             ctx.case(('gm-dm', d, trial))
             got = GM.dm_to_gellmann_basis(rho)
-            if got.shape != bv.shape or np.abs(got - bv).max() > TOL:
+            if got.shape != bv.shape or core.gt(np.abs(got - bv).max(), TOL):
                 bad('dm_to_gellmann_basis', 'Bloch vector')
-            if np.abs(GM.gellmann_basis_to_dm(got) - rho).max() > TOL:
+            if core.gt(np.abs(GM.gellmann_basis_to_dm(got) - rho).max(), TOL):
                 bad('gellmann_basis_to_dm', 'Bloch vector does not round-trip')
-            if abs(GM.dm_to_gellmann_norm(rho) ** 2 - np.dot(bv, bv)) > TOL:
+            if core.gt(abs(GM.dm_to_gellmann_norm(rho) ** 2 - np.dot(bv, bv)), TOL):
                 bad('dm_to_gellmann_norm', 'norm != Euclidean norm of the Bloch vector')
             bs = analysis(sig).real[:-1]
-            if abs(GM.get_density_matrix_distance2(rho, sig) - np.dot(bv - bs, bv - bs)) > TOL:
+            if core.gt(abs(GM.get_density_matrix_distance2(rho, sig) - np.dot(bv - bs, bv - bs)), TOL):
                 bad('get_density_matrix_distance2', 'distance^2 != squared Euclidean distance of Bloch vectors')
             rb = np.stack([rho, sig]).reshape(2, 1, d, d)
             gotb = GM.dm_to_gellmann_basis(rb)
-            if gotb.shape != (2, 1, d * d - 1) or np.abs(gotb[1, 0] - bs).max() > TOL:
+            if gotb.shape != (2, 1, d * d - 1) or core.gt(np.abs(gotb[1, 0] - bs).max(), TOL):
                 bad('dm_to_gellmann_basis', 'batched')
-            if np.abs(GM.dm_to_gellmann_norm(rb)[0, 0] ** 2 - np.dot(bv, bv)) > TOL:
+            if core.gt(np.abs(GM.dm_to_gellmann_norm(rb)[0, 0] ** 2 - np.dot(bv, bv)), TOL):
                 bad('dm_to_gellmann_norm', 'batched')
-            if np.abs(GM.gellmann_basis_to_dm(torch.tensor(np.stack([bv, bs]))).numpy() - np.stack([rho, sig])).max() > TOL:
+            if core.gt(np.abs(GM.gellmann_basis_to_dm(torch.tensor(np.stack([bv, bs]))).numpy() - np.stack([rho, sig])).max(), TOL):
                 bad('gellmann_basis_to_dm', 'torch batched')
     except Exception as ex:
         ctx.violation('C16:exception:gellmann', type(ex).__name__ + ': ' + str(ex)[:160], data)
